@@ -68,6 +68,14 @@ fn cases() -> Vec<Bad> {
             let mut b = mk("repeated-output-index-3x", &|a| a.p_out = vec![0, 1, 1, 0, 1], false);
             b.p_out = vec![0, 1];
             v.push(b);
+            for (name, set) in [("repeated-output-index-non-adjacent-101", vec![1usize, 0, 1]), ("repeated-output-index-non-adjacent-010", vec![0, 1, 0]), ("repeated-output-index-non-adjacent-last-first", vec![n - 1, 0, 1, n - 1])] {
+                let mut b = mk(name, &|a| a.p_out = set.clone(), false);
+                let mut base: Vec<usize> = set.clone();
+                base.sort();
+                base.dedup();
+                b.p_out = base;
+                v.push(b);
+            }
             v.push(mk("unsorted-output-set", &|a| a.p_out = (0..n).rev().collect(), false));
             // circuit descriptions whose counters disagree with their instructions
             let with_circ_m = |class: &str, must: bool, f: &dyn Fn(&mut Circuit)| -> Bad {
